@@ -1,3 +1,4 @@
+import Sparrow.Proofs.LegKernelEquiv
 import Sparrow.Proofs.PointPatchLemmas
 /-
   C04 — Initial source energy is the solid-angle share of each patch.
@@ -49,3 +50,35 @@ theorem source_visible (d m pt : ℝ) :
   Sparrow.source_visible d m pt
 
 end Sparrow.Props.C04
+
+namespace Sparrow.Props.C04.SourceLeg
+open Sparrow Sparrow.Generated.LegKernels
+
+/-- `_source2patch_energy_universal` (translated), energy of patch `j` in band `b`: exactly `0` for a
+    patch the source does not see, else `exp(-m_b · d_j) · pt_j` (no attenuation: `pt_j`), `d_j` the
+    distance from the source to the patch centre. -/
+theorem source2patchEnergy_eq (pt : (Nat → ℝ) → (Nat → Nat → ℝ) → ℝ) (P B : Nat) (src : Nat → ℝ)
+    (pc : Nat → Nat → ℝ) (pp : Nat → Nat → Nat → ℝ) (vis : Nat → Bool) (att : Option (Nat → ℝ))
+    (s0 s1 s2 s3 s4 : Nat) (j b : Nat) (hj : j < P) :
+    (source2patchEnergyUniversal pt 3 src P 3 pc s0 s1 s2 pp s3 vis s4 att B).1 j b =
+      sourceEnergy (vis j) (Vec3.norm (Vec3.sub ⟨src 0, src 1, src 2⟩ ⟨pc j 0, pc j 1, pc j 2⟩))
+        (att.map fun a => a b) (pt src (fun v q => pp j v q)) :=
+  Sparrow.source2patchEnergy_eq pt P B src pc pp vis att s0 s1 s2 s3 s4 j b hj
+
+/-- … and its distance output: `0` for a hidden patch, else the source–centre distance. -/
+theorem source2patchDistance_eq (pt : (Nat → ℝ) → (Nat → Nat → ℝ) → ℝ) (P B : Nat) (src : Nat → ℝ)
+    (pc : Nat → Nat → ℝ) (pp : Nat → Nat → Nat → ℝ) (vis : Nat → Bool) (att : Option (Nat → ℝ))
+    (s0 s1 s2 s3 s4 : Nat) (j : Nat) (hj : j < P) :
+    (source2patchEnergyUniversal pt 3 src P 3 pc s0 s1 s2 pp s3 vis s4 att B).2 j =
+      sourceDistance (vis j) (Vec3.norm (Vec3.sub ⟨src 0, src 1, src 2⟩ ⟨pc j 0, pc j 1, pc j 2⟩)) :=
+  Sparrow.source2patchDistance_eq pt P B src pc pp vis att s0 s1 s2 s3 s4 j hj
+
+/-- a patch the source does not see gets exactly nothing, in every band, and distance `0` -/
+theorem source2patch_hidden_zero (pt : (Nat → ℝ) → (Nat → Nat → ℝ) → ℝ) (P B : Nat) (src : Nat → ℝ)
+    (pc : Nat → Nat → ℝ) (pp : Nat → Nat → Nat → ℝ) (vis : Nat → Bool) (att : Option (Nat → ℝ))
+    (s0 s1 s2 s3 s4 : Nat) (j b : Nat) (hj : j < P) (hv : vis j = false) :
+    (source2patchEnergyUniversal pt 3 src P 3 pc s0 s1 s2 pp s3 vis s4 att B).1 j b = 0 ∧
+    (source2patchEnergyUniversal pt 3 src P 3 pc s0 s1 s2 pp s3 vis s4 att B).2 j = 0 :=
+  Sparrow.source2patch_hidden_zero pt P B src pc pp vis att s0 s1 s2 s3 s4 j b hj hv
+
+end Sparrow.Props.C04.SourceLeg
